@@ -120,6 +120,23 @@ func f(xs []byte) string { var b strings.Builder; b.Grow(len(xs)); for _, x := r
 func f(xs string) string { var b strings.Builder; b.WriteString(xs); return b.String() }`, "f", false, "is not supported (only WriteByte, Grow and String)"},
 	{"three-clause for, <= len(x)-c", `func f(xs []byte) int { s := 0; for j := 0; j <= len(xs)-6; j += 6 { s += j }; return s }`, "f", true,
 		"(Go.forUp true true 0#64 ((BitVec.ofNat 64 xs.length) - 6#64) 6)"},
+	// patterns an independent audit found accepted and mistranslated; now rejected (or translated in Go's order)
+	{"tuple assignment, index uses an assigned variable", `func f(n int) []byte { a := make([]byte, 4); i := 0; i, a[i] = 2, 7; return a }`, "f", false,
+		"Go evaluates the index first"},
+	{"tuple assignment, independent index", `func f(i int) int { a := make([]byte, 4); j := 0; j, a[i] = 2, 7; return j + int(a[0]) }`, "f", true, "(a.set i.toNat st_2)"},
+	{"method result assigned to a field the callee assigns", `type T struct { n int }
+func (c *T) g() int { c.n = 100; return 5 }
+func (c *T) m() int { c.n = c.g(); return c.n }`, "T.g,T.m", true, "let c_n : BitVec 64 := st_1.2\n  let c_n : BitVec 64 := st_1.1"},
+	{"method argument reads a field the callee assigns", `type T struct { a [4]uint }
+func (c *T) g(src []uint) uint { c.a[0] = 5; return src[0] }
+func (c *T) m() uint { x := c.g(c.a[:]); return x }`, "T.g!disjoint,T.m", false, "reads `a`, which T_g writes into"},
+	{"method writing a parameter that may overlap a field", `type T struct { a [4]uint }
+func (c *T) m(dst []uint) uint { dst[0] = 7; return c.a[0] }`, "T.m", false, "may overlap"},
+	{"slice-typed field", `type T struct { a []uint }
+func (c *T) m() uint { c.a[0] = 9; return c.a[0] }`, "T.m", false, "a slice field could alias"},
+	{"returning a slice twice", `func f(n int) ([]byte, []byte) { r := make([]byte, 2); r[0] = byte(n); return r, r }`, "f", false, "share a backing array"},
+	{"partial array literal", `var tab = [5]int{1, 2}
+func f() int { s := 0; for i := range tab { s += i + tab[i] }; return s }`, "f", false, "does not list all 5 elements"},
 	{"three-clause for, <= len(x)-c too small", `func f(xs []byte) int { s := 0; for j := 0; j <= len(xs)-5; j += 6 { s += j }; return s }`, "f", false, "could wrap around"},
 	{"negative shift count in a function that may panic", `func f(xs []byte, n int) byte { return xs[0] << n }`, "f", true, "if !(Go.nonneg n) then Go.Flow.panic else"},
 	// reslicing and condition loops
